@@ -649,3 +649,38 @@ Proof.
   - unfold encode_def. rewrite enc_part_mismatch by congruence. reflexivity.
 Qed.
 
+(* ANY program of the encoder language only appends to the buffer it is given *)
+Section AppendOnly.
+  Variable names : list string.
+  Variable shape_of : string -> tshape.
+  Variable m : msgval.
+
+  Lemma exec_writes_appends l : forall out,
+    exec_writes names shape_of m l out = (b <- exec_writes names shape_of m l [] ;; Ok (out ++ b)).
+  Proof.
+    induction l as [|s t IH]; intro out; cbn [exec_writes obind]; [rewrite app_nil_r; reflexivity|].
+    destruct s; try reflexivity.
+    destruct (src_bytes names shape_of m src) as [b| | |]; cbn [obind app]; try reflexivity.
+    rewrite (IH (out ++ b)), (IH b).
+    destruct (exec_writes names shape_of m t []); cbn [obind]; try reflexivity. rewrite app_assoc. reflexivity.
+  Qed.
+
+  Theorem exec_enc_appends l : forall out,
+    exec_enc_top names shape_of m l out = (b <- exec_enc_top names shape_of m l [] ;; Ok (out ++ b)).
+  Proof.
+    induction l as [|s t IH]; intro out; cbn [exec_enc_top obind]; [reflexivity|].
+    destruct s as [src|x body| |].
+    - destruct (src_bytes names shape_of m src) as [b| | |]; cbn [obind app]; try reflexivity.
+      rewrite (IH (out ++ b)), (IH b).
+      destruct (exec_enc_top names shape_of m t []); cbn [obind]; try reflexivity. rewrite app_assoc. reflexivity.
+    - destruct (index_of x names) as [i|]; [|reflexivity].
+      destruct (nth_error m i) as [[v|]|]; try reflexivity.
+      + rewrite (exec_writes_appends body out).
+        destruct (exec_writes names shape_of m body []) as [b| | |]; cbn [obind app]; try reflexivity.
+        rewrite (IH (out ++ b)), (IH b).
+        destruct (exec_enc_top names shape_of m t []); cbn [obind]; try reflexivity. rewrite app_assoc. reflexivity.
+      + apply IH.
+    - cbn [obind]. rewrite ?app_nil_r. reflexivity.
+    - reflexivity.
+  Qed.
+End AppendOnly.
